@@ -43,13 +43,25 @@ CHECKS = {
          "Every live block reported exactly once with an enclosing range, no dead block, per-area used count, early stop honoured; hole patterns from random/LIFO/FIFO/same-class/neighbour free orders.", "3 C12"),
  "C13": ("drv_seq under option vectors", "pairwise (thorough: 3-wise) covering array over 13 commit/purge/arena options x history profiles, virtual clock, purge-range callback against the shadow model",
          "Each option vector re-runs the C01/C03/C04/C05/C12 oracles; every madvise(DONTNEED/FREE)/mprotect(PROT_NONE) range is checked against live blocks before it is executed; debug builds really revoke access on decommit.", "3 C13"),
+ "C15": ("drv_seq arena profile", "runtime monitor: address-range checks on every returned pointer against mi_arena_area / the region given to mi_manage_os_memory_ex, canary zones, threads terminating with live blocks inside exclusive arenas",
+         "1-3 arenas over regions of awkward geometry, bound and unbound heaps allocating the same size classes, bound heaps filled until they refuse (NULL, never memory from elsewhere), adoption of abandoned arena segments "
+         "(forced collects, reclaim-on-free, forced abandonment): bound heap => inside its arena, any other heap => outside every exclusive arena.", "3 C15"),
+ "C16": ("drv_arith (includes src/static.c)", "exhaustive / boundary enumeration of the compiled size-class and address arithmetic against reference arithmetic (128-bit multiply, plain division), UBSan/ASan build; address recovery on real pages",
+         "All sizes 0..2*MI_MEDIUM_OBJ_SIZE_MAX and every boundary up to PTRDIFF_MAX; span bins 0..512; mi_fast_divide for all bin sizes x offsets; utilities on grids + random inputs; _mi_ptr_segment / _mi_segment_page_of / "
+         "_mi_page_ptr_unalign on real pages of all 48 small/medium bins at >200 slice positions, large and huge pages, aligned pointers; 4 build variants.", "3 C16"),
+ "C19": ("ovr/ovr_matrix.cpp, ovr/ovr_c.c under LD_PRELOAD and the static override object", "runtime monitor inside overriding processes (22 allocating x 11 releasing/resizing entry points x sizes x alignments, libc/libstdc++ internal allocators), dynamic-linker binding log (LD_DEBUG=bindings, LD_BIND_NOW), whole programs with/without preload",
+         "Every pointer from every C/C++ entry point must be memory of the override (mi_is_in_heap_region, mi_usable_size, malloc_usable_size) and survive any other entry point; every binding of an allocation symbol from any object must go to the override library; "
+         "a debug override library reports any foreign pointer; python/sort/ls/gcc/awk behave identically under the preload.", "3 C19"),
+ "C20": ("drv_opts (includes src/static.c) + vf/optref.py", "differential check of option parsing against a reference grammar (9000 (option, value) pairs per run over all 37 options and their legacy names), ASan/UBSan on the formatter with exactly sized buffers, every mi_stats_get_json buffer size, all print functions",
+         "Environment strings: 73 hand-written forms rotated over all options + 2000 generated (well-formed per grammar, malformed, around the 64-byte limit, up to 8 KiB); set/get round trips; 4*10^5 _mi_snprintf calls into exactly sized libc buffers; "
+         "mi_stats_get_json for every size 0..len+64; >16 KiB of delayed output.", "3 C20"),
  "C17": ("drv_seq hardening profile", "runtime monitor with injected program errors (double free, overflow byte, forged free-list link) and the registered error callback as observer; shadow-model oracles stay on afterwards in the secure build",
          "~25 attacks per secure-build case inside ordinary histories, one per debug-build case; expected error code must be delivered, no block handed out twice, no address outside OS regions of the allocator.", "3 C17"),
  "C18": ("drv_seq purge profile + OS shim + virtual clock", "OS-ledger monitor under a virtual clock: committed-and-resident bytes after the delay expired with ordinary activity, compared with what a forced collect returns",
          "purge_delay in {-1,0,5,10,100} x decommit/reset x arena multiplier x {pages, segments, everything}; violation = more than 35% (65% page scenario) of the freed bytes still committed, or any purge with delay -1, or none with delay 0.", "3 C18"),
 }
 
-NOT_YET = {p: "check under construction in this round (engine drv_mt / arena / arithmetic / override / options drivers); not claimed yet" for p in ("C15", "C16", "C19", "C20")}
+NOT_YET = {}
 
 def main():
     checks = []
